@@ -45,6 +45,12 @@ def acyclicB (m : Dict Str) : Bool := (dkeys m).all fun k => (rankOf m (m.length
 /-- the rank function the check found -/
 def rankFn (m : Dict Str) (k : Str) : Nat := (rankOf m (m.length + 1) k).getD 0
 
+def depthL (rk : Str → Nat) (l : List Str) : Nat := l.foldr (fun n a => max (rk n + 1) a) 0
+
+/-- one more than the highest rank among the placeholders of the text; 0 for a text without placeholders: the
+bound on the number of passes (`C14.passes_bounded`) -/
+def depth (rk : Str → Nat) (s : Str) : Nat := depthL rk (phNames s)
+
 /-- every macro used by a body is defined -/
 def closedB (m : Dict Str) : Bool := m.all fun kv => (phNames kv.2).all fun n => (dget m n).isSome
 
